@@ -2980,6 +2980,39 @@ static Node *unary(Token **rest, Token *tok) {
 }
 
 // struct-members = (declspec declarator (","  declarator)* ";")*
+// Returns true if the declaration specifiers in [tok, end) contain a
+// struct or union specifier that has no tag. Only such a specifier
+// declares an anonymous member when no declarator follows it
+// (C11 6.7.2.1p13); "struct T { ... };" or a typedef name do not.
+static bool is_untagged_record_spec(Token *tok, Token *end) {
+  int depth = 0;
+  for (; tok != end && tok->kind != TK_EOF; tok = tok->next) {
+    if (equal(tok, "(") || equal(tok, "{") || equal(tok, "["))
+      depth++;
+    else if (equal(tok, ")") || equal(tok, "}") || equal(tok, "]"))
+      depth--;
+    if (depth != 0 || (!equal(tok, "struct") && !equal(tok, "union")))
+      continue;
+
+    // Skip attributes between the keyword and the tag or the brace.
+    tok = tok->next;
+    while (equal(tok, "__attribute__")) {
+      int level = 0;
+      for (tok = tok->next; tok->kind != TK_EOF; tok = tok->next) {
+        if (equal(tok, "("))
+          level++;
+        else if (equal(tok, ")") && --level == 0)
+          break;
+      }
+      if (tok->kind == TK_EOF)
+        return false;
+      tok = tok->next;
+    }
+    return equal(tok, "{");
+  }
+  return false;
+}
+
 static void struct_members(Token **rest, Token *tok, Type *ty) {
   Member head = {};
   Member *cur = &head;
@@ -2987,12 +3020,14 @@ static void struct_members(Token **rest, Token *tok, Type *ty) {
 
   while (!equal(tok, "}")) {
     VarAttr attr = {};
+    Token *spec = tok;
     Type *basety = declspec(&tok, tok, &attr);
     bool first = true;
 
     // Anonymous struct member
     if ((basety->kind == TY_STRUCT || basety->kind == TY_UNION) &&
-        consume(&tok, tok, ";")) {
+        equal(tok, ";") && is_untagged_record_spec(spec, tok)) {
+      tok = tok->next;
       Member *mem = calloc(1, sizeof(Member));
       mem->ty = basety;
       mem->idx = idx++;
